@@ -140,7 +140,7 @@ func VfH_C07_split() {
 func VfH_C13_split() {
 	maxLen, alpha := 2, 3
 	if vfThorough() {
-		maxLen, alpha = 2, 8
+		maxLen, alpha = 2, 5
 	}
 	a := vfSplitInputX(maxLen, alpha, true)
 	b := vfSplitInput(maxLen, alpha)
